@@ -61,6 +61,48 @@ def _body(src, name):
     return _corefn_body(src, name) if name.startswith("cfun_") else func_body(src, name)
 
 
+_MASKS = {"0x1": 1, "0x2": 2, "0x4": 4, "0x8": 8, "JANET_THREAD_SUPERVISOR_FLAG": 256}
+
+
+def _plan(body, what, write):
+    """ordered list of (always, mask, wantSet, kind): the segments cfun_ev_thread writes / janet_go_thread_subr reads.
+    A segment is recognised by what is marshalled / unmarshalled; its guard is the innermost enclosing `if ((!)(flags & M))`."""
+    if write:
+        pats = [("registry", r"janet_marshal\s*\(\s*buffer\s*,\s*janet_wrap_table\s*\(\s*janet_vm\.abstract_registry\s*\)"),
+                ("supervisor", r"janet_marshal\s*\(\s*buffer\s*,\s*janet_wrap_abstract\s*\(\s*supervisor\s*\)"),
+                ("cfuns", r"janet_buffer_push_bytes\s*\(\s*buffer\s*,\s*\(\s*uint8_t\s*\*\s*\)\s*janet_vm\.registry\s*,"),
+                ("main", r"janet_marshal\s*\(\s*buffer\s*,\s*argv\[0\]\s*,"),
+                ("value", r"janet_marshal\s*\(\s*buffer\s*,\s*value\s*,")]
+    else:
+        pats = [("registry", r"Janet\s+aregv\s*=\s*janet_unmarshal\s*\("),
+                ("supervisor", r"Janet\s+sup\s*=\s*janet_unmarshal\s*\("),
+                ("cfuns", r"memcpy\s*\(\s*janet_vm\.registry\s*,\s*nextbytes\s*,"),
+                ("main", r"Janet\s+fiberv\s*=\s*janet_unmarshal\s*\("),
+                ("value", r"Janet\s+value\s*=\s*janet_unmarshal\s*\(")]
+    guards = []
+    for m in re.finditer(r"if\s*\(\s*(!?)\s*\(?\s*flags\s*&\s*(0x[0-9a-fA-F]+|JANET_THREAD_SUPERVISOR_FLAG)\s*\)?\s*\)\s*\{", body):
+        j = m.end() - 1
+        if m.group(2) not in _MASKS:
+            raise ExtractError("%s: unknown flag mask %s" % (what, m.group(2)))
+        guards.append((j, match_brace(body, j), _MASKS[m.group(2)], m.group(1) != "!"))
+    steps = []
+    for kind, pat in pats:
+        ms = list(re.finditer(pat, body))
+        if len(ms) != 1:
+            raise ExtractError("%s: expected exactly one %s of the %s segment, found %d" % (what, "write" if write else "read", kind, len(ms)))
+        pos = ms[0].start()
+        enc = [g for g in guards if g[0] < pos < g[1]]
+        if len(enc) > 1:
+            raise ExtractError("%s: %s segment under nested flag tests" % (what, kind))
+        steps.append((pos, (False, enc[0][2], enc[0][3], kind) if enc else (True, 0, True, kind)))
+    # nothing else may be written to / read from the buffer
+    n_io = len(re.findall(r"janet_marshal\s*\(\s*buffer\s*,|janet_buffer_push_bytes\s*\(\s*buffer\s*,", body)) if write else \
+        len(re.findall(r"janet_unmarshal\s*\(|memcpy\s*\(\s*[^,]*,\s*nextbytes\s*,", body))
+    if n_io != (6 if write else 6):
+        raise ExtractError("%s: %d buffer %s operations, expected 6 (5 segments; the cfunction registry is count + table)" % (what, n_io, "write" if write else "read"))
+    return [st for _, st in sorted(steps)]
+
+
 def extract(tree):
     ev = strip_comments(read(tree, "src/core/ev.c"))
     marsh = strip_comments(read(tree, "src/core/marsh.c"))
@@ -210,20 +252,59 @@ def extract(tree):
     flags["cbSchedulesFiber"] = bool(
         re.search(r"mode\s*==\s*JANET_CP_MODE_READ\s*\)\s*\{\s*janet_assert\s*\(\s*!\s*janet_chan_unpack\s*\(\s*channel\s*,\s*&x\s*,\s*0\s*\)[^;]*;\s*janet_schedule\s*\(\s*fiber\s*,\s*x\s*\)\s*;", cb)
         and re.search(r"mode\s*==\s*JANET_CP_MODE_WRITE\s*\)\s*\{\s*janet_schedule\s*\(\s*fiber\s*,\s*janet_wrap_channel\s*\(\s*channel\s*\)\s*\)\s*;", cb))
+    # ---- ev/thread hand-over (Thread/Spawn.lean): write plan of cfun_ev_thread, read plan of janet_go_thread_subr
+    evt = _corefn_body(ev, "cfun_ev_thread")
+    wplan = _plan(evt, "cfun_ev_thread", write=True)
+    rplan = _plan(go, "janet_go_thread_subr", write=False)
+    n_unsafe_w = len(re.findall(r"janet_marshal\s*\(\s*buffer\s*,[^;]*JANET_MARSHAL_UNSAFE\s*\)", evt))
+    n_marsh_w = len(re.findall(r"janet_marshal\s*\(\s*buffer\s*,", evt))
+    n_unsafe_r = len(re.findall(r"janet_unmarshal\s*\([^;]*JANET_MARSHAL_UNSAFE\s*,\s*NULL\s*,\s*&nextbytes\s*\)", go))
+    n_unm_r = len(re.findall(r"janet_unmarshal\s*\(", go))
+    flags["threadArgsUnsafeBothSides"] = bool(n_marsh_w == n_unsafe_w >= 2 and n_unm_r == n_unsafe_r >= 2)
+    # the same flag word on both sides (msg.tag), the buffer travels in msg.argp of exactly one threaded call and is freed once by the subroutine
+    flags["threadFlagsInTag"] = bool(re.search(r"arguments\.tag\s*=\s*\(\s*uint32_t\s*\)\s*flags\s*;", evt)
+                                     and re.search(r"janet_ev_threaded_await\s*\(\s*janet_go_thread_subr\s*,\s*\(\s*uint32_t\s*\)\s*flags\s*,", evt)
+                                     and re.search(r"uint32_t\s+flags\s*=\s*args\.tag\s*;", go))
+    flags["threadBufferOneThreadFreedOnce"] = bool(
+        len(re.findall(r"janet_ev_threaded_call\s*\(|janet_ev_threaded_await\s*\(", evt)) == 2
+        and re.search(r"arguments\.argp\s*=\s*buffer\s*;", evt) and re.search(r"janet_ev_threaded_await\s*\([^;]*,\s*buffer\s*\)\s*;", evt)
+        and len(re.findall(r"janet_free\s*\(\s*buffer\s*\)", go)) == 1 and len(re.findall(r"janet_buffer_deinit\s*\(\s*buffer\s*\)", go)) == 1
+        and len(re.findall(r"pthread_create\s*\(", func_body(ev, "janet_ev_threaded_call"))) == 1
+        and re.search(r"init->msg\s*=\s*arguments\s*;", func_body(ev, "janet_ev_threaded_call")))
+    # the new thread resumes `main` with `value` and supervises it with the unmarshalled channel
+    flags["threadSchedulesMainWithValue"] = bool(re.search(r"fiber->supervisor_channel\s*=\s*janet_vm\.user\s*;\s*janet_schedule\s*\(\s*fiber\s*,\s*value\s*\)\s*;\s*janet_loop\s*\(\s*\)\s*;", go))
+    # ---- supervisor events are mode-2 pushes (Model.lean `giveNB`); ev/give-supervisor is an ordinary give
+    flags["supervisorEventIsMode2Push"] = bool(
+        re.search(r"janet_channel_push\s*\(\s*chan\s*,\s*make_supervisor_event\s*\(\s*janet_signal_names\[sig\]\s*,\s*task\.fiber\s*,\s*chan->is_threaded\s*\)\s*,\s*2\s*\)", l1)
+        and re.search(r"janet_channel_push\s*\(\s*\(\s*JanetChannel\s*\*\s*\)\s*supervisor\s*,[^;]*,\s*2\s*\)\s*;", go))
+    gs = _corefn_body(ev, "cfun_ev_give_supervisor")
+    flags["giveSupervisorIsGive"] = bool(re.search(r"if\s*\(\s*janet_channel_push\s*\(\s*chan\s*,[^;]*,\s*0\s*\)\s*\)\s*\{\s*janet_await\s*\(\s*\)\s*;", gs))
+    # mode 2 never registers a pending writer: the early return sits before the write_pending push
+    im2 = re.search(r"if\s*\(\s*mode\s*==\s*2\s*\)\s*\{\s*janet_chan_unlock\s*\(\s*channel\s*\)\s*;\s*return\s+1\s*;\s*\}", push)
+    iwp = push.find("janet_q_push(&channel->write_pending")
+    flags["mode2NeverParks"] = bool(im2 and iwp >= 0 and im2.end() <= iwp)
     sw = func_body(gc, "janet_sweep")
     flags["sweepDecrefFrees"] = bool(re.search(r"if\s*\(\s*!\s*janet_truthy\s*\(\s*items\[i\]\.value\s*\)\s*\)\s*\{[^}]*if\s*\(\s*0\s*==\s*janet_abstract_decref\s*\(\s*abst\s*\)\s*\)", sw, re.S)
                                      and "janet_free(janet_abstract_head(abst))" in sw)
     mk = func_body(gc, "janet_mark_abstract")
     flags["markSetsVisited"] = bool(re.search(r"janet_table_put\s*\(\s*&janet_vm\.threaded_abstracts\s*,[^;]*janet_wrap_true", mk))
-    return {"flags": flags, "locks": locks, "hook_present": "janet_verif_sched_point" in ev}
+    return {"flags": flags, "locks": locks, "hook_present": "janet_verif_sched_point" in ev, "wplan": wplan, "rplan": rplan}
 
 
 def render(facts):
     f = facts["flags"]
     o = [lean_header("src/core/ev.c janet_thread_chan_cb / janet_thread_body, marsh.c threaded abstracts, gc.c sweep")]
+    o.append("import JanetModel.Thread.Spawn\n")
     o.append("namespace JanetModel.Gen.Thread\n")
     for k in sorted(f):
         o.append("abbrev %s : Bool := %s" % (k, "true" if f[k] else "false"))
+
+    def plan(name, steps, doc):
+        o.append("\n/-- %s -/" % doc)
+        o.append("abbrev %s : List JanetModel.Thread.Spawn.PStep := [%s]" % (name, ", ".join(
+            "⟨%s, %d, %s, .%s⟩" % ("true" if a else "false", m, "true" if w else "false", k) for a, m, w, k in steps)))
+    plan("threadWritePlan", facts["wplan"], "cfun_ev_thread: segments marshalled into the start-up buffer, in order (always, mask, wantSet, kind)")
+    plan("threadReadPlan", facts["rplan"], "janet_go_thread_subr: segments read back from the buffer, in order")
     o.append("\n-- janet_chan_lock / janet_chan_unlock call counts per function (lock discipline; informational)")
     for k in sorted(facts["locks"]):
         o.append("-- %s: %d lock, %d unlock" % (k, facts["locks"][k][0], facts["locks"][k][1]))
